@@ -86,9 +86,37 @@ partial def ofData : Data → T
       else acc ++ [(k, ofData v)]) []) []
   | d => .leaf d
 
+/-- a configured path segment against a segment of a setting's path: names match themselves, a number matches that list
+index, `*` matches every list index (and nothing else) -/
+def segMatch (pat seg : String) : Bool :=
+  if seg.startsWith "#" then
+    pat == "*" || (match pat.toNat? with | some n => idxSeg n == seg | none => false)
+  else pat == seg
+
+def patPrefix : List String → List String → Bool
+  | [], _ => true
+  | _ :: _, [] => false
+  | p :: ps, s :: ss => segMatch p s && patPrefix ps ss
+
+/-- two configured paths compete when, after a common prefix, one says `*` and the other names an index: the statement
+does not say which of them governs that element, so the oracle does not decide such option sets -/
+def competing : List String → List String → Bool
+  | p :: ps, q :: qs =>
+    if p == q then competing ps qs
+    else (p == "*" && q.toNat?.isSome) || (q == "*" && p.toNat?.isSome)
+  | _, _ => false
+
+/-- the option stores the policy of path p under the key `*` below p, which is also where the entries of `p.*.…` live: the
+two cannot be configured together (the later option displaces the earlier one) -/
+def starClash (p q : List String) : Bool :=
+  p.isPrefixOf q && (q.drop p.length).head? == some "*"
+
+def ambiguous (fs : List (List String × Handling)) : Bool :=
+  fs.any (fun (p, _) => fs.any (fun (q, _) => competing p q || starClash p q))
+
 /-- C16: the policy in force at path π: the configured path that is the longest prefix of π -/
 def polOf (g : Handling) (fs : List (List String × Handling)) (π : List String) : Handling :=
-  let cands := fs.filter (fun (p, _) => p.isPrefixOf π)
+  let cands := fs.filter (fun (p, _) => patPrefix p π)
   match cands.foldl (fun (best : Option (List String × Handling)) c =>
       match best with
       | none => some c
